@@ -804,6 +804,17 @@ pub fn plans_for(prop: &str, thorough: bool) -> Vec<Plan> {
                 oracles: o,
                 u_cap: 400,
             });
+            if prop == "C01" {
+                plans.push(Plan {
+                    name: "F-PACKDEFAULT (Luau generic type packs with a default type pack) x all widths",
+                    cases: gen::f_packdefault(),
+                    cfgs: Box::new(syn_cfgs(false)),
+                    widths: Widths::All,
+                    ranges: Ranges::None,
+                    oracles: o,
+                    u_cap: 400,
+                });
+            }
             if prop == "C06" {
                 plans.push(Plan {
                     name: "F-GUARDCALL (guards and one-line functions around a call without parentheses) + F-ARGBLANK (an empty line in front of a call argument) x call_parentheses x collapse, column widths 80 and 120 only",
